@@ -238,7 +238,9 @@ func H_conc_w() {
 			fi := refFrame(sink.buf, true)
 			vfAssert("conc-w-frame-well-formed", vfAnd(fi.ok, fi.consumed == len(sink.buf)))
 			vfAssert("conc-w-blocks-in-order", vfEqBytes(fi.content, r.want))
-			vfAssert("conc-w-one-block-per-dispatch", fi.nblocks == r.blocks || r.second)
+			if len(a) > 0 && len(b) > 0 {
+				vfAssert("conc-w-one-block-per-dispatch", fi.nblocks == r.blocks || r.second)
+			}
 			// C14: the bytes do not depend on the concurrency level or the schedule
 			vfAssert("cdet-bytes-equal-sequential", vfEqBytes(sink.buf, seq.buf))
 		}
@@ -263,6 +265,12 @@ func H_conc_w() {
 		}
 		if rfail >= 0 {
 			vfAssert("cfault-source-failure-reported", anyErr)
+		}
+		if useHandler {
+			// the last call of every sequence is Close: also when it reports an error it has
+			// returned, and no callback may follow
+			_, late := cnt.snapshot(false)
+			vfAssert("conc-w-no-callback-after-close", late == 0)
 		}
 	}
 	vfReach("end")
